@@ -39,12 +39,12 @@ Fixpoint s_security (tags : list byte) (els : list elem) (acc : sec_sum) : optio
     else s_security tags r acc
   end.
 
-(* SSID: at most 32 bytes of the element copied to the start of the 33-byte field; hidden exactly when
-   the (last) SSID element is empty or all zero.  Channel: first body byte of the last DS (for BSS
+(* SSID: at most 32 bytes of the LAST SSID element at the start of the 33-byte field, zero after them; hidden exactly
+   when that element is empty or all zero.  Channel: first body byte of the last DS (for BSS
    frames also HT operation) element that has one. *)
 Definition s_ssid_bytes (tags : list byte) (e : elem) : list byte := zfirstn (Z.min (e_len e) 32) (body_of tags e).
 Definition sp_ssid (tags : list byte) (els : list elem) : list byte :=
-  fold_left (fun acc e => if e_num e =? E_SSID then put0 (s_ssid_bytes tags e) acc else acc) els zero33.
+  fold_left (fun acc e => if e_num e =? E_SSID then put0 (s_ssid_bytes tags e) zero33 else acc) els zero33.
 Definition sp_hidden (tags : list byte) (els : list elem) : Z :=
   fold_left (fun acc e => if e_num e =? E_SSID
                           then (if (e_len e =? 0) || forallb (fun b => b =? 0) (s_ssid_bytes tags e) then 1 else 0)
@@ -77,7 +77,7 @@ Definition s_parse_bss (f : frame) (subtype fixed cap_off : Z) (all_addrs : bool
     end
   end.
 Definition s_parse_beacon f := s_parse_bss f 8 12 10 true.
-Definition s_parse_probe_resp f := s_parse_bss f 5 12 10 false.
+Definition s_parse_probe_resp f := s_parse_bss f 5 12 10 true.
 Definition s_parse_assoc_resp f := s_parse_bss f 1 6 0 true.
 Definition s_parse_reassoc_resp f := s_parse_bss f 3 6 0 true.
 
@@ -91,7 +91,7 @@ Definition s_parse_sta (f : frame) (subtype fixed : Z) : outcome sta :=
   | Ok els =>
     Ok {| s_channel := s_chan false tags els;
           s_randomized := (if Z.testbit (znth (s_addr f 2) 0) 1 then 1 else 0);     (* locally administered bit *)
-          s_transmitter := s_addr f 2; s_receiver := zero6; s_bssid := s_addr f 3;
+          s_transmitter := s_addr f 2; s_receiver := s_addr f 1; s_bssid := s_addr f 3;
           s_ssid := sp_ssid tags els; s_broadcast_ssid := 0; s_tags := tags |}
   end.
 Definition s_parse_probe_req f := s_parse_sta f 4 0.
